@@ -645,6 +645,100 @@ def run_form_product_case(fi):
     return out
 
 
+# ---- what counts as a docstring (the start offset of `_body`) ---------------------------------------------------------------
+
+_DOC_FIRST = ['"""doc"""', "'d'", "b'bytes'", "f'x{y}'", "f'plain'", '1', '...', "'a' 'b'", "('p')", "u'u'", "r'r'", "rb'x'", "b'a' b'b'", 'None',
+              'x', "'s'.strip()", '-1', "'a' + 'b'", "('t',)", 'é = "ñ"', 'pass']
+_DOC_HOLDERS = [('Module', None, lambda t: t), ('FunctionDef', 'def f():', B0), ('AsyncFunctionDef', 'async def f():', B0), ('ClassDef', 'class C:', B0),
+                ('If', 'if x:', B0), ('For', 'for i in j:', B0), ('With', 'with x:', B0)]
+
+
+def run_docstr_case(arg):
+    """Deterministic: every docstring holder (and some block kinds that are not) x every kind of FIRST statement that is or
+    looks like a docstring (str in all prefixes / concatenated / parenthesized, bytes, f-string, number, Ellipsis, expression
+    on a str, ...) x queries and edits through `_body`.  Judge of 'is a docstring': CPython's ast.get_docstring.  The list
+    model: `_body` is body[1:] if there is a docstring else body."""
+    hi, fi = arg
+    kind, hdr, find = _DOC_HOLDERS[hi]
+    first = _DOC_FIRST[fi]
+    L = [first, 'a = 1', 'b()']
+    render = (lambda el: '\n'.join(el)) if hdr is None else (lambda el: hdr + '\n' + '\n'.join('    ' + e for e in el))
+    src = render(L)
+    out = []
+    try:
+        tree = ast.parse(src)
+    except SyntaxError:
+        return out
+    node0 = find(tree)
+    isdoc = kind in ('Module', 'FunctionDef', 'AsyncFunctionDef', 'ClassDef') and ast.get_docstring(node0, clean=False) is not None
+    off = 1 if isdoc else 0
+    V = L[off:]
+    m = len(V)
+    elems = [ast.dump(x) for x in node0.body[off:]]
+
+    def rec_(op, extra):
+        return {'fam': f'{kind}._body', 'tag': 'docstring-kind', 'op': op, 'sigop': op, 'src': src, 'a': None, 'b': None, 'new': [first] + extra,
+                'layout': False, 'docstr_args': [hi, fi]}
+
+    def fresh():
+        root = _fst(src)
+        return root, find(root.a).f
+
+    r = rec_('has_docstr/len', [])
+    try:
+        root, nd = fresh()
+        got = (bool(nd.has_docstr), len(nd._body), [ast.dump(nd._body[i].a) for i in range(len(nd._body))])
+        if got != (isdoc, m, elems):
+            r['fail'] = 'docstring-offset'
+            r['detail'] = (f'first statement {first!r}: CPython ast.get_docstring says docstring={isdoc}; has_docstr={got[0]}, len(_body)={got[1]} '
+                           f'(list model {m}), _body shows {str(got[2])[:200]}')
+    except Exception as ex:
+        r['fail'], r['detail'] = 'raised:' + type(ex).__name__, str(ex)[:200]
+    out.append(r)
+    edits = [('_body[0]=', lambda nd: nd._body.__setitem__(0, 'zz = 1'), lambda v: ['zz = 1'] + v[1:]),
+             ('_body[-1]=', lambda nd: nd._body.__setitem__(-1, 'zz = 1'), lambda v: v[:-1] + ['zz = 1']),
+             (f'_body[{-m}]=', lambda nd: nd._body.__setitem__(-m, 'zz = 1'), lambda v: ['zz = 1'] + v[1:]),
+             ('_body.insert(0)', lambda nd: nd._body.insert('zz = 1', 0), lambda v: ['zz = 1'] + v),
+             ('_body.prepend', lambda nd: nd._body.prepend('zz = 1'), lambda v: ['zz = 1'] + v),
+             ('insert(0,_body)', lambda nd: nd.insert('zz = 1', 0, '_body'), lambda v: ['zz = 1'] + v),
+             ('del _body[0]', lambda nd: nd._body.__delitem__(0), lambda v: v[1:]),
+             ('del _body[:-1]', lambda nd: nd._body.__delitem__(slice(None, -1)), lambda v: v[-1:]),
+             ('_body[0:1]=', lambda nd: nd._body.__setitem__(slice(0, 1), 'zz = 1'), lambda v: ['zz = 1'] + v[1:]),
+             ('put_slice(0,1,_body)', lambda nd: nd.put_slice('zz = 1', 0, 1, '_body'), lambda v: ['zz = 1'] + v[1:]),
+             ('put_slice(0,end,_body)', lambda nd: nd.put_slice('zz = 1', 0, 'end', '_body'), lambda v: ['zz = 1']),
+             ('put(0,_body)', lambda nd: nd.put('zz = 1', 0, '_body'), lambda v: ['zz = 1'] + v[1:]),
+             (f'put({-m},_body)', lambda nd: nd.put('zz = 1', -m, '_body'), lambda v: ['zz = 1'] + v[1:]),
+             ('put(0,_body,raw)', lambda nd: nd.put('zz = 1', 0, '_body', raw=True), lambda v: ['zz = 1'] + v[1:]),
+             ('_body=', lambda nd: setattr(nd, '_body', 'zz = 1'), lambda v: ['zz = 1']),
+             ('_body[0].remove', lambda nd: nd._body[0].remove(), lambda v: v[1:])]
+    for name, fn, model in edits:
+        want = L[:off] + model(V)
+        r = rec_(name, [])
+        try:
+            exp = ast.dump(ast.parse(render(want)))
+        except SyntaxError:
+            continue
+        try:
+            root, nd = fresh()
+            fn(nd)
+            got = ast.dump(root.a)
+            if got != exp:
+                r['fail'] = 'structure'
+                r['detail'] = f'first statement {first!r} (docstring by CPython: {isdoc}): {root.src!r} instead of {render(want)!r}'
+            else:
+                d = _source_check(root, exp)
+                if d:
+                    r['fail'], r['detail'] = 'source', d
+        except Exception as ex:
+            r['fail'], r['detail'] = 'raised:' + type(ex).__name__, str(ex)[:200]
+        out.append(r)
+    return out
+
+
+def docstr_items():
+    return [(h, f) for h in range(len(_DOC_HOLDERS)) for f in range(len(_DOC_FIRST))]
+
+
 # ---- Compare with its operators; options given per call, by `with FST.options(...)` and by FST.set_options(...) ----------------
 
 _CMP_OPERANDS = ['a', 'b', 'c.d', 'e()']
